@@ -78,6 +78,35 @@ def m_attr(I, m, name):
     return NotImplementedVal
 
 
+MapEq = z3.Function('MapEq', IS, IS, BS)
+
+
+def m_compare(I, op, a, b):
+    """dict == dict / != : equal versions are equal; otherwise a symbolic answer that, when true, makes the two maps agree at every key"""
+    import ast
+    if not (isinstance(a, Obj) and isinstance(b, Obj) and a.cls is MapCls and b.cls is MapCls):
+        if isinstance(a, dict) or isinstance(b, dict):
+            other = b if isinstance(a, dict) else a
+            conc = a if isinstance(a, dict) else b
+            if not conc:                      # compared with the empty python dict
+                r = Size(other.fields['ver']) == 0
+                return r if op is ast.Eq else z3.Not(r)
+        return NotImplementedVal
+    va, vb = a.fields['ver'], b.fields['ver']
+    if z3.is_expr(va) and z3.is_expr(vb) and va.eq(vb):
+        r = True
+    else:
+        r = MapEq(va, vb)
+        k = z3.Real('k!eq')
+        I.ctx.assume_forall([k], z3.Implies(r, z3.And(Dom(va, k) == Dom(vb, k), z3.Implies(Dom(va, k), MVal(va, k) == MVal(vb, k)))), 'equal maps agree at every key')
+        I.ctx.assume(z3.Implies(r, Size(va) == Size(vb)))
+    if op is ast.Eq:
+        return r
+    if op is ast.NotEq:
+        return (not r) if isinstance(r, bool) else z3.Not(r)
+    return NotImplementedVal
+
+
 def install(world):
-    world.abstract['CpMap'] = {'contains': m_contains, 'index': m_index, 'setitem': m_setitem, 'symseq': m_symseq, 'attr': m_attr}
+    world.abstract['CpMap'] = {'contains': m_contains, 'index': m_index, 'setitem': m_setitem, 'symseq': m_symseq, 'attr': m_attr, 'compare': m_compare}
     world.extern_truth['CpMap'] = m_truth
